@@ -93,7 +93,7 @@ package sfnt
 // over keeps its content under its new index; built-in encoding and CIDs are
 // re-keyed.
 //@ pred cffOK(o *cff.Outlines) = o != nil && o.FDSelect != nil && len(o.Glyphs) <= 65536 && (o.ROS != nil ==> len(o.FontMatrices) == len(o.Private)) && (o.GIDToCID != nil ==> len(o.GIDToCID) == len(o.Glyphs))
-//@ func (s *subsetter) SubsetCFF(oldOutlines *cff.Outlines) (out *cff.Outlines)   props: C10
+//@ func (s *subsetter) SubsetCFF(oldOutlines *cff.Outlines) (out *cff.Outlines)   props: C10 C16
 //@   requires bij(s) && cffOK(oldOutlines) && forall i int :: 0 <= i && i < len(s.glyphs) ==> s.glyphs[i] < len(oldOutlines.Glyphs)
 //@   ensures out != nil && fresh(out) && len(out.Glyphs) == len(s.glyphs) && forall i int :: 0 <= i && i < len(s.glyphs) ==> out.Glyphs[i] == oldOutlines.Glyphs[s.glyphs[i]]
 //@   ensures oldOutlines.GIDToCID != nil ==> len(out.GIDToCID) == len(s.glyphs) && forall i int :: 0 <= i && i < len(s.glyphs) ==> out.GIDToCID[i] == oldOutlines.GIDToCID[s.glyphs[i]]
@@ -125,7 +125,7 @@ package sfnt
 
 // SubsetCMap: a character is mapped in the subset exactly if it was mapped to
 // a retained glyph, and then to that glyph's new index.
-//@ func (s *subsetter) SubsetCMap(c cmap.Subtable) (res cmap.Subtable)   props: C10
+//@ func (s *subsetter) SubsetCMap(c cmap.Subtable) (res cmap.Subtable)   props: C10 C16
 //@   requires s != nil && s.newGid != nil && (c == nil || is(c, cmap.Format4) || is(c, cmap.Format12))
 //@   ensures c == nil ==> res == nil
 //@   ensures c != nil && is(c, cmap.Format4) ==> is(res, cmap.Format4) && forall k uint16 :: has(res.(cmap.Format4), k) ==> has(c.(cmap.Format4), k) && has(s.newGid, c.(cmap.Format4)[k]) && res.(cmap.Format4)[k] == s.newGid[c.(cmap.Format4)[k]]
